@@ -15,6 +15,7 @@ CORRESPONDENCES = [
     'and accepts every k/W with k | W',
 ]
 TRUSTED = [
+    'the IEEE-754 theorems go through Flocq (user-contrib, 4.1.0) and depend on axioms DECLARED BY THE STANDARD LIBRARY (none of ours): the specification of primitive floats and 63-bit integers (FloatAxioms.*_spec, Prim2SF_valid, SF2Prim_Prim2SF, Prim2SF_SF2Prim; Uint63.*_spec, of_to_Z, eqb_correct, eqb_refl), Classical_Prop.classic, FunctionalExtensionality.functional_extensionality_dep and the real-number axioms ClassicalDedekindReals.sig_forall_dec / sig_not_dec (all listed per run by Print Assumptions)',
     'Coq 8.16.1 kernel (coqc) incl. vm_compute for the finite-domain fraction theorem; no native_compute',
     'primitive floats / 63-bit integers are kernel primitives (listed by Print Assumptions as PrimFloat.*, PrimInt63.*)',
     'extraction with ExtrOcamlBasic only; ocaml/driver.ml; ocamlopt; coqc evaluation of the float model on generated cases',
